@@ -75,7 +75,7 @@ class C15(Prop):
                 if irs["IRSetID"] not in sets:
                     break
             sets[irs["IRSetID"]] = irs
-        db = self.tmp / f"db{i}.json"
+        db = self.tmp / ("remotes.json" if i % 2 else f"db{i}.json")      # an application regenerates its database under one name
         db.write_text(json.dumps(sets))
         mgr = self.remotes.SwitcherBreezeRemoteManager(str(db))
         for rid, irs in sets.items():
